@@ -39,21 +39,23 @@ type DagOp struct {
 }
 
 type DagCase struct {
-	Dag      bool                `json:"dag"`
-	Prop     string              `json:"prop"`
-	ID       int                 `json:"id"`
-	Ops      []DagOp             `json:"ops"`
-	Serial   bool                `json:"serial,omitempty"`
-	Max      int                 `json:"max,omitempty"`
-	Buffer   bool                `json:"buffer,omitempty"`
-	Outcomes map[string][]string `json:"outcomes"` // task id -> outcome per attempt: ok err skip
-	CtlSeed  int64               `json:"ctlseed"`
-	CancelAt int                 `json:"cancelat"`          // controller step at which the context is cancelled (-1: never)
-	Shared   bool                `json:"shared,omitempty"`  // run a second graph sharing the Task objects concurrently
-	BigOut   bool                `json:"bigout,omitempty"`  // odd tasks write more than 64 KiB per attempt
-	Names    bool                `json:"names,omitempty"`   // task IDs are words with separators, spaces, case twins instead of numbers
-	WithTM   bool                `json:"withtm,omitempty"`  // a TaskMap is used (tmadd ops, "m" references) and handed to Validate
-	WithAPI  bool                `json:"withapi,omitempty"` // tasks come from a TaskMap (made anew for every graph built from the history)
+	Dag       bool                `json:"dag"`
+	Prop      string              `json:"prop"`
+	ID        int                 `json:"id"`
+	Ops       []DagOp             `json:"ops"`
+	Serial    bool                `json:"serial,omitempty"`
+	Max       int                 `json:"max,omitempty"`
+	Buffer    bool                `json:"buffer,omitempty"`
+	Outcomes  map[string][]string `json:"outcomes"` // task id -> outcome per attempt: ok err skip
+	CtlSeed   int64               `json:"ctlseed"`
+	CancelAt  int                 `json:"cancelat"`            // controller step at which the context is cancelled (-1: never)
+	Shared    bool                `json:"shared,omitempty"`    // run a second graph sharing the Task objects concurrently
+	BigOut    bool                `json:"bigout,omitempty"`    // odd tasks write more than 64 KiB per attempt
+	Names     bool                `json:"names,omitempty"`     // task IDs are words with separators, spaces, case twins instead of numbers
+	BadOut    bool                `json:"badout,omitempty"`    // the writer given to SetOutputBuffer reports an error for every Write (after taking the data)
+	PreCancel bool                `json:"precancel,omitempty"` // the context is already cancelled when Run is called
+	WithTM    bool                `json:"withtm,omitempty"`    // a TaskMap is used (tmadd ops, "m" references) and handed to Validate
+	WithAPI   bool                `json:"withapi,omitempty"`   // tasks come from a TaskMap (made anew for every graph built from the history)
 }
 
 // IDs handed to the library: the decimal number, or (Names) a word chosen so that IDs contain each other,
@@ -534,6 +536,9 @@ func (w recWriter) Write(p []byte) (int, error) {
 	w.r.mu.Lock()
 	w.r.writes = append(w.r.writes, string(p))
 	w.r.mu.Unlock()
+	if w.r.c.BadOut {
+		return len(p), errors.New("output writer failed")
+	}
 	return len(p), nil
 }
 
@@ -995,6 +1000,13 @@ func runDagCase(c *DagCase, d *Driver) *DagResult {
 		r.mu.Lock()
 		r.graphs[g2] = 1
 		r.mu.Unlock()
+	}
+	if c.PreCancel {
+		// the context is over before Run starts: nothing may be launched, Run returns an error
+		r.mu.Lock()
+		r.cancelReq = true
+		r.mu.Unlock()
+		cancel()
 	}
 	go func() { runDone <- g.Run(ctx, nil, nil) }()
 	var g2done chan error
@@ -1647,6 +1659,8 @@ func genDagCase(r *rand.Rand, id int, prop string) *DagCase {
 		c.Max = 1 + r.Intn(3)
 	}
 	c.Buffer = r.Intn(4) == 0
+	c.BadOut = r.Intn(5) == 0
+	c.PreCancel = r.Intn(40) == 0
 	c.BigOut = r.Intn(5) == 0
 	c.Names = r.Intn(5) == 0 && n < len(idWords)
 	if r.Intn(6) == 0 {
